@@ -19,8 +19,15 @@ def numel(sh):
 
 def gen_case(seed):
     g = G(SeedSource(seed), Opts(gauss=True, max_names=4))
-    kind = g.pick(["delta", "delta", "tensor_sample", "tensor_sample", "tensor_sample", "gauss_sample", "gauss_sample", "gauss_reparam"])
+    kind = g.pick(["delta", "delta", "tensor_sample", "tensor_sample", "tensor_sample", "gauss_sample", "gauss_sample", "gauss_reparam", "delta_terms", "delta_terms", "delta_terms"])
     names = sorted(g.sizes)
+    if kind == "delta_terms":
+        # point masses inside the generated term language: Delta + f in both orders, several Deltas (one point a function of
+        # another's variable), reductions and Integrate over all or some of the Delta's variables, substitution, Independent
+        from vf.gen import gen_expr
+
+        ast = gen_expr(SeedSource(seed + 1), Opts(max_depth=2, deltas=True, reals=True, max_names=3), ("real", ()))
+        return dict(kind=kind, ast=ast, mode=g.pick(["eager", "eager", "lazy", "normalize"]))
     if kind == "delta":
         v = "v"
         real_point = g.chance(0.4)
@@ -106,6 +113,10 @@ class C14(Prop):
             from vf.lang import show
 
             c["gauss"] = show(c["gauss"])
+        if "ast" in c:
+            from vf.lang import show
+
+            c["ast"] = show(c["ast"])
         return str(c)[:600]
 
     def signature(self, case):
@@ -114,6 +125,32 @@ class C14(Prop):
     def check(self, case, stt):
         stt.count("kind:" + case["kind"])
         return getattr(self, "check_" + case["kind"])(case, stt)
+
+    # ------------------------------------------------------------ Delta terms in the term language
+    def check_delta_terms(self, case, stt):
+        import funsor.interpretations as I
+        from funsor.interpreter import reinterpret
+        from vf.build import build
+        from vf.lang import show, walk
+        from vf.props.c01 import evaluate_against_oracle
+
+        node, mode = case["ast"], case["mode"]
+        nd = sum(len(n[1]) for n in walk(node) if n[0] == "delta")
+        if nd == 0:
+            raise Decline("no Delta generated")
+        try:
+            if mode == "eager":
+                r = build(node)
+            else:
+                with getattr(I, mode):
+                    t = build(node)
+                r = reinterpret(t)
+        except Exception as e:
+            raise Decline("raised:" + innermost_funsor_frame(e))
+        evaluate_against_oracle(node, r, stt, "delta-terms")
+        stt.count("completed")
+        if nd >= 2 or any(n[0] in ("red", "integrate", "indep", "sub") for n in walk(node)):
+            stt.mark_nontrivial(case_hash(case))
 
     # ------------------------------------------------------------ Delta
     def check_delta(self, case, stt):
